@@ -31,7 +31,7 @@ def main():
                 open(path, "w").write(s.replace(e["old"], e["new"]))
             env = dict(os.environ, VERIF_REPO=copy)
             t0 = time.time()
-            p = subprocess.run([os.path.join(VERIF, "check"), pid, "--tier", "quick", "--no-evidence"] + (["--units", m["units"]] if m.get("units") else []),
+            p = subprocess.run([os.path.join(VERIF, "check"), pid, "--tier", "quick", "--no-evidence"] + (["--units", os.environ.get("SELFTEST_UNITS") or m["units"]] if (os.environ.get("SELFTEST_UNITS") or m.get("units")) else []),
                                env=env, stdout=subprocess.PIPE, stderr=subprocess.STDOUT, text=True)
             dt = time.time() - t0
             sigs = [l for l in p.stdout.splitlines() if l.startswith("---- violation")]
